@@ -516,8 +516,8 @@ def run(ctx):
                                              maxdeq=9, maxatt=7, maxrs=3, maxother=12, workers=4, timeout=1500)))
         jobs.append(("edges", lambda: gen(ctx, "edges", "edges", pcs=["empty", "all256", "max"], hcs=["none", "plain", "sensmix", "collide"],
                                           vias=["handler", "chunked"], shapes=["single", "middle"], maxdeq=2, maxatt=2, maxrs=1,
-                                          maxother=1, okinds=["handler", "publish"], osizes=["longer"], workers=4, timeout=1500)))
-        jobs.append(("sim", lambda: gen(ctx, "sim", "sim", depth=24, simulate=2000, pcs=pcs, free=True, maxdeq=12, maxatt=12, maxrs=4,
+                                          maxother=1, okinds=["handler"], osizes=["longer"], workers=4, timeout=1500)))
+        jobs.append(("sim", lambda: gen(ctx, "sim", "sim", depth=24, simulate=1500, pcs=pcs, free=True, maxdeq=12, maxatt=12, maxrs=4,
                                         maxother=10, minend=4, timeout=1500)))
     with cf.ThreadPoolExecutor(max_workers=len(jobs)) as ex:
         futs = [(tag, ex.submit(fn)) for tag, fn in jobs]
